@@ -12,3 +12,17 @@
 mod shadow;
 #[cfg(kani)]
 mod skel;
+
+/// Typed replacement for `core::mem::swap` (Kani stubbing).  std swaps large
+/// values as untyped integer chunks (`swap_nonoverlapping`), through which
+/// CBMC loses the provenance of the pointers stored in the value (every later
+/// dereference is reported as "pointer invalid"); a typed read/write pair is
+/// the same operation and keeps pointers intact.  Part of the trusted base.
+#[cfg(kani)]
+pub fn swap_stub<T>(a: &mut T, b: &mut T) {
+    unsafe {
+        let t = std::ptr::read(a);
+        std::ptr::write(a, std::ptr::read(b));
+        std::ptr::write(b, t);
+    }
+}
